@@ -240,10 +240,11 @@ namespace ip {
 				m_send_timer.expires_at(m_next_send + m_send_queue_time / 2);
 
 				m_wait_send_handler = std::move(handler);
-				m_send_timer.async_wait([this](boost::system::error_code const& ec)
+				std::weak_ptr<int> alive = m_alive;
+				m_send_timer.async_wait([this, alive](boost::system::error_code const& ec)
 				{
 					// an aborted wait is completed by abort_send_handlers()
-					if (ec || !m_wait_send_handler) return;
+					if (ec || alive.expired() || !m_wait_send_handler) return;
 					auto h = std::move(m_wait_send_handler);
 					m_wait_send_handler = nullptr;
 					h(boost::system::error_code());
